@@ -137,6 +137,27 @@ let rec nth_error l = function
            | [] -> None
            | _ :: l0 -> nth_error l0 n1)
 
+(** val last : 'a1 list -> 'a1 -> 'a1 **)
+
+let rec last l d =
+  match l with
+  | [] -> d
+  | a :: l0 -> (match l0 with
+                | [] -> a
+                | _ :: _ -> last l0 d)
+
+(** val rev : 'a1 list -> 'a1 list **)
+
+let rec rev = function
+| [] -> []
+| x :: l' -> app (rev l') (x :: [])
+
+(** val concat : 'a1 list list -> 'a1 list **)
+
+let rec concat = function
+| [] -> []
+| x :: l0 -> app x (concat l0)
+
 (** val map : ('a1 -> 'a2) -> 'a1 list -> 'a2 list **)
 
 let rec map f = function
@@ -149,6 +170,18 @@ let rec fold_left f l a0 =
   match l with
   | [] -> a0
   | b :: t -> fold_left f t (f a0 b)
+
+(** val fold_right : ('a2 -> 'a1 -> 'a1) -> 'a1 -> 'a2 list -> 'a1 **)
+
+let rec fold_right f a0 = function
+| [] -> a0
+| b :: t -> f b (fold_right f a0 t)
+
+(** val existsb : ('a1 -> bool) -> 'a1 list -> bool **)
+
+let rec existsb f = function
+| [] -> false
+| a :: l0 -> (||) (f a) (existsb f l0)
 
 (** val forallb : ('a1 -> bool) -> 'a1 list -> bool **)
 
@@ -638,6 +671,11 @@ type 'a pres = (perr, 'a) res
 type 'a wres = (werr, 'a) res
 
 type bytes = n list
+
+(** val zeros : nat -> bytes **)
+
+let zeros n0 =
+  repeat N0 n0
 
 (** val be16 : n -> bytes **)
 
@@ -3360,12 +3398,12 @@ let rec m_padding = function
 | MUnk c -> get_padding_of c.unk_c_padding
 | MCustom c -> get_padding_of c.cu_padding
 | MCompound ms ->
-  let rec last = function
+  let rec last0 = function
   | [] -> None
   | m0 :: r -> (match r with
                 | [] -> m_padding m0
-                | _ :: _ -> last r)
-  in last ms
+                | _ :: _ -> last0 r)
+  in last0 ms
 
 (** val m_calc : member -> nat wres **)
 
@@ -4305,3 +4343,1278 @@ let run_build_item c bufs =
     (String ((Ascii (true, true, false, false, true, true, true, false)),
     EmptyString)))))))))))), (OL
     (map (fun b -> obs_write (item_write_into c (mk_buf b))) bufs))) :: []
+
+(** val rfc_header : n -> n -> n -> nat -> bytes **)
+
+let rfc_header pt padding count total =
+  app
+    ((N.add
+       (N.add (Npos (XO (XO (XO (XO (XO (XO (XO XH))))))))
+         (if N.ltb N0 padding then Npos (XO (XO (XO (XO (XO XH))))) else N0))
+       count) :: (pt :: []))
+    (be16 (N.of_nat (sub (Nat.div total (S (S (S (S O))))) (S O))))
+
+(** val rfc_trailer : n -> bytes **)
+
+let rfc_trailer padding =
+  if N.ltb N0 padding
+  then app (zeros (sub (N.to_nat padding) (S O))) (padding :: [])
+  else []
+
+(** val rfc_rb : rb_cfg -> bytes **)
+
+let rfc_rb b =
+  app (be32 b.rb_c_ssrc)
+    (app (b.rb_c_fraction :: [])
+      (app
+        ((N.modulo
+           (N.div b.rb_c_cumulative (Npos (XO (XO (XO (XO (XO (XO (XO (XO (XO
+             (XO (XO (XO (XO (XO (XO (XO XH)))))))))))))))))) (Npos (XO (XO
+           (XO (XO (XO (XO (XO (XO XH)))))))))) :: ((N.modulo
+                                                      (N.div
+                                                        b.rb_c_cumulative
+                                                        (Npos (XO (XO (XO (XO
+                                                        (XO (XO (XO (XO
+                                                        XH)))))))))) (Npos
+                                                      (XO (XO (XO (XO (XO (XO
+                                                      (XO (XO XH)))))))))) :: (
+        (N.modulo b.rb_c_cumulative (Npos (XO (XO (XO (XO (XO (XO (XO (XO
+          XH)))))))))) :: [])))
+        (app (be32 b.rb_c_ext_seq)
+          (app (be32 b.rb_c_jitter)
+            (app (be32 b.rb_c_lsr) (be32 b.rb_c_dlsr))))))
+
+(** val rfc_sr : sr_cfg -> bytes **)
+
+let rfc_sr c =
+  let total =
+    add
+      (add (S (S (S (S (S (S (S (S (S (S (S (S (S (S (S (S (S (S (S (S (S (S
+        (S (S (S (S (S (S O))))))))))))))))))))))))))))
+        (mul (S (S (S (S (S (S (S (S (S (S (S (S (S (S (S (S (S (S (S (S (S
+          (S (S (S O)))))))))))))))))))))))) (length c.sr_c_blocks)))
+      (N.to_nat c.sr_c_padding)
+  in
+  app
+    (rfc_header (Npos (XO (XO (XO (XI (XO (XO (XI XH)))))))) c.sr_c_padding
+      (N.of_nat (length c.sr_c_blocks)) total)
+    (app (be32 c.sr_c_ssrc)
+      (app (be64 c.sr_c_ntp)
+        (app (be32 c.sr_c_rtp)
+          (app (be32 c.sr_c_pc)
+            (app (be32 c.sr_c_oc)
+              (app (concat (map rfc_rb c.sr_c_blocks))
+                (rfc_trailer c.sr_c_padding)))))))
+
+(** val rfc_rr : rr_cfg -> bytes **)
+
+let rfc_rr c =
+  let total =
+    add
+      (add (S (S (S (S (S (S (S (S O))))))))
+        (mul (S (S (S (S (S (S (S (S (S (S (S (S (S (S (S (S (S (S (S (S (S
+          (S (S (S O)))))))))))))))))))))))) (length c.rr_c_blocks)))
+      (N.to_nat c.rr_c_padding)
+  in
+  app
+    (rfc_header (Npos (XI (XO (XO (XI (XO (XO (XI XH)))))))) c.rr_c_padding
+      (N.of_nat (length c.rr_c_blocks)) total)
+    (app (be32 c.rr_c_ssrc)
+      (app (concat (map rfc_rb c.rr_c_blocks)) (rfc_trailer c.rr_c_padding)))
+
+(** val rfc_app : app_cfg -> bytes **)
+
+let rfc_app c =
+  let total =
+    add
+      (add (S (S (S (S (S (S (S (S (S (S (S (S O))))))))))))
+        (length c.app_c_data)) (N.to_nat c.app_c_padding)
+  in
+  app
+    (rfc_header (Npos (XO (XO (XI (XI (XO (XO (XI XH)))))))) c.app_c_padding
+      c.app_c_subtype total)
+    (app (be32 c.app_c_ssrc)
+      (app c.app_c_name
+        (app (zeros (sub (S (S (S (S O)))) (length c.app_c_name)))
+          (app c.app_c_data (rfc_trailer c.app_c_padding)))))
+
+(** val rfc_reason : bytes -> bytes **)
+
+let rfc_reason r = match r with
+| [] -> []
+| _ :: _ ->
+  (N.of_nat (length r)) :: (app r
+                             (zeros
+                               (Nat.modulo
+                                 (sub (S (S (S (S O))))
+                                   (Nat.modulo (add (S O) (length r)) (S (S
+                                     (S (S O)))))) (S (S (S (S O)))))))
+
+(** val rfc_bye : bye_cfg -> bytes **)
+
+let rfc_bye c =
+  let body =
+    app (concat (map be32 c.bye_c_sources)) (rfc_reason c.bye_c_reason)
+  in
+  let total =
+    add (add (S (S (S (S O)))) (length body)) (N.to_nat c.bye_c_padding)
+  in
+  app
+    (rfc_header (Npos (XI (XI (XO (XI (XO (XO (XI XH)))))))) c.bye_c_padding
+      (N.of_nat (length c.bye_c_sources)) total)
+    (app body (rfc_trailer c.bye_c_padding))
+
+(** val rfc_item : item_cfg -> bytes **)
+
+let rfc_item i =
+  if N.eqb i.it_c_type (Npos (XO (XO (XO XH))))
+  then app
+         (i.it_c_type :: ((N.of_nat
+                            (add (add (S O) (length i.it_c_prefix))
+                              (length i.it_c_value))) :: ((N.of_nat
+                                                            (length
+                                                              i.it_c_prefix)) :: [])))
+         (app i.it_c_prefix i.it_c_value)
+  else app (i.it_c_type :: ((N.of_nat (length i.it_c_value)) :: []))
+         i.it_c_value
+
+(** val rfc_chunk : chunk_cfg -> bytes **)
+
+let rfc_chunk c =
+  let items = concat (map rfc_item c.ch_c_items) in
+  app (be32 c.ch_c_ssrc)
+    (app items
+      (zeros
+        (sub (S (S (S (S O)))) (Nat.modulo (length items) (S (S (S (S O))))))))
+
+(** val rfc_sdes : sdes_cfg -> bytes **)
+
+let rfc_sdes c =
+  let body = concat (map rfc_chunk c.sdes_c_chunks) in
+  let total =
+    add (add (S (S (S (S O)))) (length body)) (N.to_nat c.sdes_c_padding)
+  in
+  app
+    (rfc_header (Npos (XO (XI (XO (XI (XO (XO (XI XH)))))))) c.sdes_c_padding
+      (N.of_nat (length c.sdes_c_chunks)) total)
+    (app body (rfc_trailer c.sdes_c_padding))
+
+(** val nack_take : n -> n list -> n * n list **)
+
+let rec nack_take pid l = match l with
+| [] -> (N0, [])
+| x :: r ->
+  if N.leb x (N.add pid (Npos (XO (XO (XO (XO XH))))))
+  then let (blp, rest) = nack_take pid r in
+       ((N.add (N.pow (Npos (XO XH)) (N.sub (N.sub x pid) (Npos XH))) blp),
+       rest)
+  else (N0, l)
+
+(** val rfc_nack_words : nat -> n list -> (n * n) list **)
+
+let rec rfc_nack_words fuel l =
+  match fuel with
+  | O -> []
+  | S f ->
+    (match l with
+     | [] -> []
+     | pid :: r ->
+       let (blp, rest) = nack_take pid r in
+       (pid, blp) :: (rfc_nack_words f rest))
+
+(** val insert_sorted : n -> n list -> n list **)
+
+let rec insert_sorted x l = match l with
+| [] -> x :: []
+| y :: r ->
+  if N.ltb x y
+  then x :: l
+  else if N.eqb x y then l else y :: (insert_sorted x r)
+
+(** val rfc_set : n list -> n list **)
+
+let rfc_set adds =
+  fold_right insert_sorted [] adds
+
+(** val rfc_fir_lookup : (n * n) list -> n -> n option **)
+
+let rfc_fir_lookup adds k =
+  fold_left (fun acc kv0 ->
+    if N.eqb (fst kv0) k then Some (snd kv0) else acc) adds None
+
+(** val rfc_nodup_keys : n list -> (n * n) list -> n list **)
+
+let rec rfc_nodup_keys seen = function
+| [] -> []
+| p :: r ->
+  let (k, _) = p in
+  if existsb (N.eqb k) seen
+  then rfc_nodup_keys seen r
+  else k :: (rfc_nodup_keys (k :: seen) r)
+
+(** val rfc_fir_map : (n * n) list -> (n * n) list **)
+
+let rfc_fir_map adds =
+  map (fun k -> (k,
+    (match rfc_fir_lookup adds k with
+     | Some v -> v
+     | None -> N0))) (rfc_nodup_keys [] adds)
+
+(** val rfc_sli_word : ((n * n) * n) -> bytes **)
+
+let rfc_sli_word = function
+| (p, pid) ->
+  let (first, number) = p in
+  be32
+    (N.add
+      (N.add
+        (N.mul
+          (N.modulo first (Npos (XO (XO (XO (XO (XO (XO (XO (XO (XO (XO (XO
+            (XO (XO XH))))))))))))))) (Npos (XO (XO (XO (XO (XO (XO (XO (XO
+          (XO (XO (XO (XO (XO (XO (XO (XO (XO (XO (XO XH)))))))))))))))))))))
+        (N.mul
+          (N.modulo number (Npos (XO (XO (XO (XO (XO (XO (XO (XO (XO (XO (XO
+            (XO (XO XH))))))))))))))) (Npos (XO (XO (XO (XO (XO (XO XH)))))))))
+      (N.modulo pid (Npos (XO (XO (XO (XO (XO (XO XH)))))))))
+
+(** val rfc_rpsi : n -> bytes -> n -> bytes **)
+
+let rfc_rpsi pt bits overrun =
+  let fill =
+    Nat.modulo
+      (sub (S (S (S (S O))))
+        (Nat.modulo (add (S (S O)) (length bits)) (S (S (S (S O)))))) (S (S
+      (S (S O))))
+  in
+  let body =
+    match rev bits with
+    | [] -> []
+    | last0 :: r ->
+      app (rev r)
+        ((N.mul (N.div last0 (N.pow (Npos (XO XH)) overrun))
+           (N.pow (Npos (XO XH)) overrun)) :: [])
+  in
+  app
+    ((N.add (N.of_nat (mul (S (S (S (S (S (S (S (S O)))))))) fill)) overrun) :: (pt :: []))
+    (app body (zeros fill))
+
+(** val rfc_fci : fci_cfg -> bytes **)
+
+let rfc_fci = function
+| FNack adds ->
+  let s = rfc_set adds in
+  concat
+    (map (fun w -> app (be16 (fst w)) (be16 (snd w)))
+      (rfc_nack_words (length s) s))
+| FFir adds ->
+  concat
+    (map (fun kv0 ->
+      app (be32 (fst kv0)) ((snd kv0) :: (N0 :: (N0 :: (N0 :: [])))))
+      (rfc_fir_map adds))
+| FSli es -> concat (map rfc_sli_word es)
+| FRpsi (pt, bits, ov) -> rfc_rpsi pt bits ov
+| FPli -> []
+
+(** val rfc_fb : fb_cfg -> bytes **)
+
+let rfc_fb c =
+  let fci = rfc_fci c.fb_c_fci in
+  let total =
+    add (add (S (S (S (S (S (S (S (S (S (S (S (S O)))))))))))) (length fci))
+      (N.to_nat c.fb_c_padding)
+  in
+  app
+    (rfc_header
+      (match c.fb_c_kind with
+       | Transport -> Npos (XI (XO (XI (XI (XO (XO (XI XH)))))))
+       | Payload -> Npos (XO (XI (XI (XI (XO (XO (XI XH))))))))
+      c.fb_c_padding
+      (match c.fb_c_fci with
+       | FFir _ -> Npos (XO (XO XH))
+       | FSli _ -> Npos (XO XH)
+       | FRpsi (_, _, _) -> Npos (XI XH)
+       | _ -> Npos XH) total)
+    (app (be32 c.fb_c_sender)
+      (app (be32 c.fb_c_media) (app fci (rfc_trailer c.fb_c_padding))))
+
+(** val rfc_raw : n -> n -> n -> bytes -> bytes **)
+
+let rfc_raw pt padding count payload =
+  let total = add (add (S (S (S (S O)))) (length payload)) (N.to_nat padding)
+  in
+  app (rfc_header pt padding count total) (app payload (rfc_trailer padding))
+
+(** val rfc_image : member -> bytes **)
+
+let rec rfc_image = function
+| MSr c -> rfc_sr c
+| MRr c -> rfc_rr c
+| MApp c -> rfc_app c
+| MBye c -> rfc_bye c
+| MSdes c -> rfc_sdes c
+| MFb c -> rfc_fb c
+| MUnk c -> rfc_raw c.unk_c_type c.unk_c_padding c.unk_c_count c.unk_c_data
+| MCustom c -> rfc_raw c.cu_pt c.cu_padding c.cu_count c.cu_payload
+| MCompound ms -> concat (map rfc_image ms)
+
+(** val well_framed : nat -> n -> bytes -> bool **)
+
+let well_framed min pt l = match l with
+| [] -> false
+| b0 :: l0 ->
+  (match l0 with
+   | [] -> false
+   | b1 :: l1 ->
+     (match l1 with
+      | [] -> false
+      | b2 :: l2 ->
+        (match l2 with
+         | [] -> false
+         | b3 :: _ ->
+           (&&)
+             ((&&)
+               ((&&)
+                 ((&&) (Nat.leb min (length l))
+                   (N.eqb (N.div b0 (Npos (XO (XO (XO (XO (XO (XO XH))))))))
+                     (Npos (XO XH)))) (N.eqb b1 pt))
+               (Nat.eqb (length l)
+                 (mul (S (S (S (S O))))
+                   (add
+                     (N.to_nat
+                       (N.add
+                         (N.mul b2 (Npos (XO (XO (XO (XO (XO (XO (XO (XO
+                           XH)))))))))) b3)) (S O)))))
+             (if N.eqb
+                   (N.modulo (N.div b0 (Npos (XO (XO (XO (XO (XO XH)))))))
+                     (Npos (XO XH))) (Npos XH)
+              then let p = N.to_nat (last l N0) in
+                   (&&) (Nat.ltb O p) (Nat.leb (add min p) (length l))
+              else true))))
+
+(** val raw_framed : bytes -> bool **)
+
+let raw_framed l = match l with
+| [] -> false
+| b0 :: l0 ->
+  (match l0 with
+   | [] -> false
+   | _ :: l1 ->
+     (match l1 with
+      | [] -> false
+      | b2 :: l2 ->
+        (match l2 with
+         | [] -> false
+         | b3 :: _ ->
+           (&&)
+             (N.eqb (N.div b0 (Npos (XO (XO (XO (XO (XO (XO XH)))))))) (Npos
+               (XO XH)))
+             (Nat.eqb (length l)
+               (mul (S (S (S (S O))))
+                 (add
+                   (N.to_nat
+                     (N.add
+                       (N.mul b2 (Npos (XO (XO (XO (XO (XO (XO (XO (XO
+                         XH)))))))))) b3)) (S O)))))))
+
+(** val okO : obs -> obs **)
+
+let okO o =
+  OL ((OS (String ((Ascii (true, true, true, true, false, true, true,
+    false)), (String ((Ascii (true, true, false, true, false, true, true,
+    false)), EmptyString))))) :: (o :: []))
+
+(** val okN : n -> obs **)
+
+let okN x =
+  okO (ON x)
+
+(** val okI : nat -> obs **)
+
+let okI x =
+  okO (OI x)
+
+(** val okPad : n -> obs **)
+
+let okPad padding =
+  okO (obs_optN (get_padding_of padding))
+
+(** val exp_hdr : n -> n -> nat -> obs **)
+
+let exp_hdr pt count total =
+  okO (OL
+    ((okN (Npos (XO XH))) :: ((okN pt) :: ((okN count) :: ((okN count) :: (
+    (okI total) :: []))))))
+
+(** val exp_rb : rb_cfg -> obs **)
+
+let exp_rb b =
+  OL
+    ((okN b.rb_c_ssrc) :: ((okN b.rb_c_fraction) :: ((okN b.rb_c_cumulative) :: (
+    (okN b.rb_c_ext_seq) :: ((okN b.rb_c_jitter) :: ((okN b.rb_c_lsr) :: (
+    (okN b.rb_c_dlsr) :: [])))))))
+
+(** val exp_sr : sr_cfg -> kv list **)
+
+let exp_sr c =
+  let nb = N.of_nat (length c.sr_c_blocks) in
+  ((String ((Ascii (false, false, false, true, false, true, true, false)),
+  (String ((Ascii (false, false, true, false, false, true, true, false)),
+  (String ((Ascii (false, true, false, false, true, true, true, false)),
+  EmptyString)))))),
+  (exp_hdr (Npos (XO (XO (XO (XI (XO (XO (XI XH)))))))) nb
+    (add
+      (add (S (S (S (S (S (S (S (S (S (S (S (S (S (S (S (S (S (S (S (S (S (S
+        (S (S (S (S (S (S O))))))))))))))))))))))))))))
+        (mul (S (S (S (S (S (S (S (S (S (S (S (S (S (S (S (S (S (S (S (S (S
+          (S (S (S O)))))))))))))))))))))))) (length c.sr_c_blocks)))
+      (N.to_nat c.sr_c_padding)))) :: (((String ((Ascii (false, false, false,
+  false, true, true, true, false)), (String ((Ascii (true, false, false,
+  false, false, true, true, false)), (String ((Ascii (false, false, true,
+  false, false, true, true, false)), (String ((Ascii (false, false, true,
+  false, false, true, true, false)), (String ((Ascii (true, false, false,
+  true, false, true, true, false)), (String ((Ascii (false, true, true, true,
+  false, true, true, false)), (String ((Ascii (true, true, true, false,
+  false, true, true, false)), EmptyString)))))))))))))),
+  (okPad c.sr_c_padding)) :: (((String ((Ascii (false, true, true, true,
+  false, true, true, false)), (String ((Ascii (true, true, true, true, true,
+  false, true, false)), (String ((Ascii (false, true, false, false, true,
+  true, true, false)), (String ((Ascii (true, false, true, false, false,
+  true, true, false)), (String ((Ascii (false, false, false, false, true,
+  true, true, false)), (String ((Ascii (true, true, true, true, false, true,
+  true, false)), (String ((Ascii (false, true, false, false, true, true,
+  true, false)), (String ((Ascii (false, false, true, false, true, true,
+  true, false)), (String ((Ascii (true, true, false, false, true, true, true,
+  false)), EmptyString)))))))))))))))))), (okN nb)) :: (((String ((Ascii
+  (true, true, false, false, true, true, true, false)), (String ((Ascii
+  (true, true, false, false, true, true, true, false)), (String ((Ascii
+  (false, true, false, false, true, true, true, false)), (String ((Ascii
+  (true, true, false, false, false, true, true, false)), EmptyString)))))))),
+  (okN c.sr_c_ssrc)) :: (((String ((Ascii (false, true, true, true, false,
+  true, true, false)), (String ((Ascii (false, false, true, false, true,
+  true, true, false)), (String ((Ascii (false, false, false, false, true,
+  true, true, false)), EmptyString)))))), (okN c.sr_c_ntp)) :: (((String
+  ((Ascii (false, true, false, false, true, true, true, false)), (String
+  ((Ascii (false, false, true, false, true, true, true, false)), (String
+  ((Ascii (false, false, false, false, true, true, true, false)),
+  EmptyString)))))), (okN c.sr_c_rtp)) :: (((String ((Ascii (false, false,
+  false, false, true, true, true, false)), (String ((Ascii (true, true,
+  false, false, false, true, true, false)), EmptyString)))),
+  (okN c.sr_c_pc)) :: (((String ((Ascii (true, true, true, true, false, true,
+  true, false)), (String ((Ascii (true, true, false, false, false, true,
+  true, false)), EmptyString)))), (okN c.sr_c_oc)) :: (((String ((Ascii
+  (false, true, false, false, true, true, true, false)), (String ((Ascii
+  (false, true, false, false, false, true, true, false)), (String ((Ascii
+  (true, true, false, false, true, true, true, false)), EmptyString)))))),
+  (okO (OL (map exp_rb c.sr_c_blocks)))) :: []))))))))
+
+(** val exp_rr : rr_cfg -> kv list **)
+
+let exp_rr c =
+  let nb = N.of_nat (length c.rr_c_blocks) in
+  ((String ((Ascii (false, false, false, true, false, true, true, false)),
+  (String ((Ascii (false, false, true, false, false, true, true, false)),
+  (String ((Ascii (false, true, false, false, true, true, true, false)),
+  EmptyString)))))),
+  (exp_hdr (Npos (XI (XO (XO (XI (XO (XO (XI XH)))))))) nb
+    (add
+      (add (S (S (S (S (S (S (S (S O))))))))
+        (mul (S (S (S (S (S (S (S (S (S (S (S (S (S (S (S (S (S (S (S (S (S
+          (S (S (S O)))))))))))))))))))))))) (length c.rr_c_blocks)))
+      (N.to_nat c.rr_c_padding)))) :: (((String ((Ascii (false, false, false,
+  false, true, true, true, false)), (String ((Ascii (true, false, false,
+  false, false, true, true, false)), (String ((Ascii (false, false, true,
+  false, false, true, true, false)), (String ((Ascii (false, false, true,
+  false, false, true, true, false)), (String ((Ascii (true, false, false,
+  true, false, true, true, false)), (String ((Ascii (false, true, true, true,
+  false, true, true, false)), (String ((Ascii (true, true, true, false,
+  false, true, true, false)), EmptyString)))))))))))))),
+  (okPad c.rr_c_padding)) :: (((String ((Ascii (false, true, true, true,
+  false, true, true, false)), (String ((Ascii (true, true, true, true, true,
+  false, true, false)), (String ((Ascii (false, true, false, false, true,
+  true, true, false)), (String ((Ascii (true, false, true, false, false,
+  true, true, false)), (String ((Ascii (false, false, false, false, true,
+  true, true, false)), (String ((Ascii (true, true, true, true, false, true,
+  true, false)), (String ((Ascii (false, true, false, false, true, true,
+  true, false)), (String ((Ascii (false, false, true, false, true, true,
+  true, false)), (String ((Ascii (true, true, false, false, true, true, true,
+  false)), EmptyString)))))))))))))))))), (okN nb)) :: (((String ((Ascii
+  (true, true, false, false, true, true, true, false)), (String ((Ascii
+  (true, true, false, false, true, true, true, false)), (String ((Ascii
+  (false, true, false, false, true, true, true, false)), (String ((Ascii
+  (true, true, false, false, false, true, true, false)), EmptyString)))))))),
+  (okN c.rr_c_ssrc)) :: (((String ((Ascii (false, true, false, false, true,
+  true, true, false)), (String ((Ascii (false, true, false, false, false,
+  true, true, false)), (String ((Ascii (true, true, false, false, true, true,
+  true, false)), EmptyString)))))),
+  (okO (OL (map exp_rb c.rr_c_blocks)))) :: []))))
+
+(** val exp_app : app_cfg -> kv list **)
+
+let exp_app c =
+  ((String ((Ascii (false, false, false, true, false, true, true, false)),
+    (String ((Ascii (false, false, true, false, false, true, true, false)),
+    (String ((Ascii (false, true, false, false, true, true, true, false)),
+    EmptyString)))))),
+    (exp_hdr (Npos (XO (XO (XI (XI (XO (XO (XI XH)))))))) c.app_c_subtype
+      (add
+        (add (S (S (S (S (S (S (S (S (S (S (S (S O))))))))))))
+          (length c.app_c_data)) (N.to_nat c.app_c_padding)))) :: (((String
+    ((Ascii (false, false, false, false, true, true, true, false)), (String
+    ((Ascii (true, false, false, false, false, true, true, false)), (String
+    ((Ascii (false, false, true, false, false, true, true, false)), (String
+    ((Ascii (false, false, true, false, false, true, true, false)), (String
+    ((Ascii (true, false, false, true, false, true, true, false)), (String
+    ((Ascii (false, true, true, true, false, true, true, false)), (String
+    ((Ascii (true, true, true, false, false, true, true, false)),
+    EmptyString)))))))))))))), (okPad c.app_c_padding)) :: (((String ((Ascii
+    (true, true, false, false, true, true, true, false)), (String ((Ascii
+    (true, true, false, false, true, true, true, false)), (String ((Ascii
+    (false, true, false, false, true, true, true, false)), (String ((Ascii
+    (true, true, false, false, false, true, true, false)),
+    EmptyString)))))))), (okN c.app_c_ssrc)) :: (((String ((Ascii (false,
+    true, true, true, false, true, true, false)), (String ((Ascii (true,
+    false, false, false, false, true, true, false)), (String ((Ascii (true,
+    false, true, true, false, true, true, false)), (String ((Ascii (true,
+    false, true, false, false, true, true, false)), EmptyString)))))))),
+    (okO (OB
+      (app c.app_c_name (zeros (sub (S (S (S (S O)))) (length c.app_c_name))))))) :: (((String
+    ((Ascii (false, false, true, false, false, true, true, false)), (String
+    ((Ascii (true, false, false, false, false, true, true, false)), (String
+    ((Ascii (false, false, true, false, true, true, true, false)), (String
+    ((Ascii (true, false, false, false, false, true, true, false)),
+    EmptyString)))))))),
+    (okO
+      (obs_range (S (S (S (S (S (S (S (S (S (S (S (S O))))))))))))
+        (length c.app_c_data)))) :: []))))
+
+(** val exp_bye : bye_cfg -> kv list **)
+
+let exp_bye c =
+  let ns = length c.bye_c_sources in
+  ((String ((Ascii (false, false, false, true, false, true, true, false)),
+  (String ((Ascii (false, false, true, false, false, true, true, false)),
+  (String ((Ascii (false, true, false, false, true, true, true, false)),
+  EmptyString)))))),
+  (exp_hdr (Npos (XI (XI (XO (XI (XO (XO (XI XH)))))))) (N.of_nat ns)
+    (add
+      (add (add (S (S (S (S O)))) (mul (S (S (S (S O)))) ns))
+        (length (rfc_reason c.bye_c_reason))) (N.to_nat c.bye_c_padding)))) :: (((String
+  ((Ascii (false, false, false, false, true, true, true, false)), (String
+  ((Ascii (true, false, false, false, false, true, true, false)), (String
+  ((Ascii (false, false, true, false, false, true, true, false)), (String
+  ((Ascii (false, false, true, false, false, true, true, false)), (String
+  ((Ascii (true, false, false, true, false, true, true, false)), (String
+  ((Ascii (false, true, true, true, false, true, true, false)), (String
+  ((Ascii (true, true, true, false, false, true, true, false)),
+  EmptyString)))))))))))))), (okPad c.bye_c_padding)) :: (((String ((Ascii
+  (true, true, false, false, true, true, true, false)), (String ((Ascii
+  (true, true, false, false, true, true, true, false)), (String ((Ascii
+  (false, true, false, false, true, true, true, false)), (String ((Ascii
+  (true, true, false, false, false, true, true, false)), (String ((Ascii
+  (true, true, false, false, true, true, true, false)),
+  EmptyString)))))))))),
+  (okO (OL (map (fun x -> ON x) c.bye_c_sources)))) :: (((String ((Ascii
+  (false, true, false, false, true, true, true, false)), (String ((Ascii
+  (true, false, true, false, false, true, true, false)), (String ((Ascii
+  (true, false, false, false, false, true, true, false)), (String ((Ascii
+  (true, true, false, false, true, true, true, false)), (String ((Ascii
+  (true, true, true, true, false, true, true, false)), (String ((Ascii
+  (false, true, true, true, false, true, true, false)),
+  EmptyString)))))))))))),
+  (okO
+    (match c.bye_c_reason with
+     | [] ->
+       OS (String ((Ascii (false, true, true, true, false, true, true,
+         false)), (String ((Ascii (true, true, true, true, false, true, true,
+         false)), (String ((Ascii (false, true, true, true, false, true,
+         true, false)), (String ((Ascii (true, false, true, false, false,
+         true, true, false)), EmptyString))))))))
+     | n0 :: l ->
+       OL ((OS (String ((Ascii (true, true, false, false, true, true, true,
+         false)), (String ((Ascii (true, true, true, true, false, true, true,
+         false)), (String ((Ascii (true, false, true, true, false, true,
+         true, false)), (String ((Ascii (true, false, true, false, false,
+         true, true, false)),
+         EmptyString))))))))) :: ((obs_range
+                                    (add
+                                      (add (S (S (S (S O))))
+                                        (mul (S (S (S (S O)))) ns)) (S O))
+                                    (length (n0 :: l))) :: []))))) :: [])))
+
+(** val item_size : item_cfg -> nat **)
+
+let item_size i =
+  length (rfc_item i)
+
+(** val exp_item : nat -> item_cfg -> obs **)
+
+let exp_item off i =
+  if N.eqb i.it_c_type (Npos (XO (XO (XO XH))))
+  then let pl = length i.it_c_prefix in
+       OL
+       ((okN (Npos (XO (XO (XO XH))))) :: ((okI
+                                             (add (add (S O) pl)
+                                               (length i.it_c_value))) :: (
+       (okO
+         (obs_range (add (add off (S (S (S O)))) pl) (length i.it_c_value))) :: (
+       (okN (N.of_nat pl)) :: ((okO (obs_range (add off (S (S (S O)))) pl)) :: [])))))
+  else OL
+         ((okN i.it_c_type) :: ((okI (length i.it_c_value)) :: ((okO
+                                                                  (obs_range
+                                                                    (add off
+                                                                    (S (S O)))
+                                                                    (length
+                                                                    i.it_c_value))) :: [])))
+
+(** val exp_items : nat -> item_cfg list -> obs list **)
+
+let rec exp_items off = function
+| [] -> []
+| i :: r -> (exp_item off i) :: (exp_items (add off (item_size i)) r)
+
+(** val chunk_size : chunk_cfg -> nat **)
+
+let chunk_size c =
+  length (rfc_chunk c)
+
+(** val exp_chunk : nat -> chunk_cfg -> obs **)
+
+let exp_chunk off c =
+  OL ((ON c.ch_c_ssrc) :: ((okI (chunk_size c)) :: ((OL
+    (exp_items (add off (S (S (S (S O))))) c.ch_c_items)) :: [])))
+
+(** val exp_chunks : nat -> chunk_cfg list -> obs list **)
+
+let rec exp_chunks off = function
+| [] -> []
+| c :: r -> (exp_chunk off c) :: (exp_chunks (add off (chunk_size c)) r)
+
+(** val exp_sdes : sdes_cfg -> kv list **)
+
+let exp_sdes c =
+  ((String ((Ascii (false, false, false, true, false, true, true, false)),
+    (String ((Ascii (false, false, true, false, false, true, true, false)),
+    (String ((Ascii (false, true, false, false, true, true, true, false)),
+    EmptyString)))))),
+    (exp_hdr (Npos (XO (XI (XO (XI (XO (XO (XI XH))))))))
+      (N.of_nat (length c.sdes_c_chunks))
+      (add
+        (add (S (S (S (S O))))
+          (length (concat (map rfc_chunk c.sdes_c_chunks))))
+        (N.to_nat c.sdes_c_padding)))) :: (((String ((Ascii (false, false,
+    false, false, true, true, true, false)), (String ((Ascii (true, false,
+    false, false, false, true, true, false)), (String ((Ascii (false, false,
+    true, false, false, true, true, false)), (String ((Ascii (false, false,
+    true, false, false, true, true, false)), (String ((Ascii (true, false,
+    false, true, false, true, true, false)), (String ((Ascii (false, true,
+    true, true, false, true, true, false)), (String ((Ascii (true, true,
+    true, false, false, true, true, false)), EmptyString)))))))))))))),
+    (okPad c.sdes_c_padding)) :: (((String ((Ascii (true, true, false, false,
+    false, true, true, false)), (String ((Ascii (false, false, false, true,
+    false, true, true, false)), (String ((Ascii (true, false, true, false,
+    true, true, true, false)), (String ((Ascii (false, true, true, true,
+    false, true, true, false)), (String ((Ascii (true, true, false, true,
+    false, true, true, false)), (String ((Ascii (true, true, false, false,
+    true, true, true, false)), EmptyString)))))))))))), (OL
+    (exp_chunks (S (S (S (S O)))) c.sdes_c_chunks))) :: []))
+
+(** val errWI : obs **)
+
+let errWI =
+  OL ((OS (String ((Ascii (true, false, true, false, false, true, true,
+    false)), (String ((Ascii (false, true, false, false, true, true, true,
+    false)), (String ((Ascii (false, true, false, false, true, true, true,
+    false)), EmptyString))))))) :: ((OL ((OS (String ((Ascii (true, true,
+    true, false, true, false, true, false)), (String ((Ascii (false, true,
+    false, false, true, true, true, false)), (String ((Ascii (true, true,
+    true, true, false, true, true, false)), (String ((Ascii (false, true,
+    true, true, false, true, true, false)), (String ((Ascii (true, true,
+    true, false, false, true, true, false)), (String ((Ascii (true, false,
+    false, true, false, false, true, false)), (String ((Ascii (true, false,
+    true, true, false, true, true, false)), (String ((Ascii (false, false,
+    false, false, true, true, true, false)), (String ((Ascii (false, false,
+    true, true, false, true, true, false)), (String ((Ascii (true, false,
+    true, false, false, true, true, false)), (String ((Ascii (true, false,
+    true, true, false, true, true, false)), (String ((Ascii (true, false,
+    true, false, false, true, true, false)), (String ((Ascii (false, true,
+    true, true, false, true, true, false)), (String ((Ascii (false, false,
+    true, false, true, true, true, false)), (String ((Ascii (true, false,
+    false, false, false, true, true, false)), (String ((Ascii (false, false,
+    true, false, true, true, true, false)), (String ((Ascii (true, false,
+    false, true, false, true, true, false)), (String ((Ascii (true, true,
+    true, true, false, true, true, false)), (String ((Ascii (false, true,
+    true, true, false, true, true, false)),
+    EmptyString))))))))))))))))))))))))))))))))))))))) :: [])) :: []))
+
+(** val exp_fci_entries : fci_cfg -> obs **)
+
+let exp_fci_entries = function
+| FNack adds ->
+  okO (OL
+    ((okO (OL (map (fun x -> ON x) (rfc_set adds)))) :: ((okO (OS (String
+                                                           ((Ascii (false,
+                                                           true, true, false,
+                                                           false, true, true,
+                                                           false)), (String
+                                                           ((Ascii (true,
+                                                           false, true,
+                                                           false, true, true,
+                                                           true, false)),
+                                                           (String ((Ascii
+                                                           (true, true,
+                                                           false, false,
+                                                           true, true, true,
+                                                           false)), (String
+                                                           ((Ascii (true,
+                                                           false, true,
+                                                           false, false,
+                                                           true, true,
+                                                           false)), (String
+                                                           ((Ascii (false,
+                                                           false, true,
+                                                           false, false,
+                                                           true, true,
+                                                           false)),
+                                                           EmptyString)))))))))))) :: [])))
+| FFir adds ->
+  okO
+    (okO (OL
+      (map (fun kv0 -> OL ((ON (fst kv0)) :: ((ON (snd kv0)) :: [])))
+        (rfc_fir_map adds))))
+| FSli es ->
+  okO
+    (okO (OL
+      (map (fun e -> OL ((ON
+        (N.modulo (fst (fst e)) (Npos (XO (XO (XO (XO (XO (XO (XO (XO (XO (XO
+          (XO (XO (XO XH)))))))))))))))) :: ((ON
+        (N.modulo (snd (fst e)) (Npos (XO (XO (XO (XO (XO (XO (XO (XO (XO (XO
+          (XO (XO (XO XH)))))))))))))))) :: ((ON
+        (N.modulo (snd e) (Npos (XO (XO (XO (XO (XO (XO XH))))))))) :: []))))
+        es)))
+| FRpsi (pt, bits, ov) ->
+  let fill =
+    Nat.modulo
+      (sub (S (S (S (S O))))
+        (Nat.modulo (add (S (S O)) (length bits)) (S (S (S (S O)))))) (S (S
+      (S (S O))))
+  in
+  let total_bits =
+    add (mul (S (S (S (S (S (S (S (S O)))))))) fill) (N.to_nat ov)
+  in
+  okO (OL
+    ((okN (N.modulo pt (Npos (XO (XO (XO (XO (XO (XO (XO XH)))))))))) :: (
+    (okO (OL
+      ((obs_range (S (S (S (S (S (S (S (S (S (S (S (S (S (S O))))))))))))))
+         (sub (add (length bits) fill)
+           (Nat.div total_bits (S (S (S (S (S (S (S (S O))))))))))) :: ((OI
+      (Nat.modulo total_bits (S (S (S (S (S (S (S (S O)))))))))) :: [])))) :: [])))
+| FPli ->
+  okO (OS (String ((Ascii (false, false, false, false, true, true, true,
+    false)), (String ((Ascii (false, false, true, true, false, true, true,
+    false)), (String ((Ascii (true, false, false, true, false, true, true,
+    false)), EmptyString)))))))
+
+(** val exp_fcis : fb_cfg -> obs **)
+
+let exp_fcis c =
+  OL
+    (map (fun t ->
+      match t with
+      | TNack ->
+        (match c.fb_c_fci with
+         | FNack _ -> exp_fci_entries c.fb_c_fci
+         | _ -> errWI)
+      | TFir ->
+        (match c.fb_c_fci with
+         | FFir _ -> exp_fci_entries c.fb_c_fci
+         | _ -> errWI)
+      | TSli ->
+        (match c.fb_c_fci with
+         | FSli _ -> exp_fci_entries c.fb_c_fci
+         | _ -> errWI)
+      | TRpsi ->
+        (match c.fb_c_fci with
+         | FRpsi (_, _, _) -> exp_fci_entries c.fb_c_fci
+         | _ -> errWI)
+      | TPli ->
+        (match c.fb_c_fci with
+         | FPli -> exp_fci_entries c.fb_c_fci
+         | _ -> errWI)) all_fci)
+
+(** val exp_fb : fb_cfg -> kv list **)
+
+let exp_fb c =
+  ((String ((Ascii (false, false, false, true, false, true, true, false)),
+    (String ((Ascii (false, false, true, false, false, true, true, false)),
+    (String ((Ascii (false, true, false, false, true, true, true, false)),
+    EmptyString)))))),
+    (exp_hdr
+      (match c.fb_c_kind with
+       | Transport -> Npos (XI (XO (XI (XI (XO (XO (XI XH)))))))
+       | Payload -> Npos (XO (XI (XI (XI (XO (XO (XI XH))))))))
+      (match c.fb_c_fci with
+       | FFir _ -> Npos (XO (XO XH))
+       | FSli _ -> Npos (XO XH)
+       | FRpsi (_, _, _) -> Npos (XI XH)
+       | _ -> Npos XH)
+      (add
+        (add (S (S (S (S (S (S (S (S (S (S (S (S O))))))))))))
+          (length (rfc_fci c.fb_c_fci))) (N.to_nat c.fb_c_padding)))) :: (((String
+    ((Ascii (false, false, false, false, true, true, true, false)), (String
+    ((Ascii (true, false, false, false, false, true, true, false)), (String
+    ((Ascii (false, false, true, false, false, true, true, false)), (String
+    ((Ascii (false, false, true, false, false, true, true, false)), (String
+    ((Ascii (true, false, false, true, false, true, true, false)), (String
+    ((Ascii (false, true, true, true, false, true, true, false)), (String
+    ((Ascii (true, true, true, false, false, true, true, false)),
+    EmptyString)))))))))))))), (okPad c.fb_c_padding)) :: (((String ((Ascii
+    (true, true, false, false, true, true, true, false)), (String ((Ascii
+    (true, false, true, false, false, true, true, false)), (String ((Ascii
+    (false, true, true, true, false, true, true, false)), (String ((Ascii
+    (false, false, true, false, false, true, true, false)), (String ((Ascii
+    (true, false, true, false, false, true, true, false)), (String ((Ascii
+    (false, true, false, false, true, true, true, false)),
+    EmptyString)))))))))))), (okN c.fb_c_sender)) :: (((String ((Ascii (true,
+    false, true, true, false, true, true, false)), (String ((Ascii (true,
+    false, true, false, false, true, true, false)), (String ((Ascii (false,
+    false, true, false, false, true, true, false)), (String ((Ascii (true,
+    false, false, true, false, true, true, false)), (String ((Ascii (true,
+    false, false, false, false, true, true, false)), EmptyString)))))))))),
+    (okN c.fb_c_media)) :: (((String ((Ascii (false, true, true, false,
+    false, true, true, false)), (String ((Ascii (true, true, false, false,
+    false, true, true, false)), (String ((Ascii (true, false, false, true,
+    false, true, true, false)), EmptyString)))))), (exp_fcis c)) :: []))))
+
+(** val exp_raw : n -> n -> nat -> kv list **)
+
+let exp_raw count pt total =
+  ((String ((Ascii (false, false, false, true, false, true, true, false)),
+    (String ((Ascii (false, false, true, false, false, true, true, false)),
+    (String ((Ascii (false, true, false, false, true, true, true, false)),
+    EmptyString)))))), (exp_hdr pt count total)) :: (((String ((Ascii (false,
+    false, true, false, false, true, true, false)), (String ((Ascii (true,
+    false, false, false, false, true, true, false)), (String ((Ascii (false,
+    false, true, false, true, true, true, false)), (String ((Ascii (true,
+    false, false, false, false, true, true, false)), EmptyString)))))))),
+    (obs_range O total)) :: [])
+
+(** val expected_packet : member -> obs **)
+
+let expected_packet = function
+| MSr c ->
+  OL ((OS (String ((Ascii (true, true, false, false, true, false, true,
+    false)), (String ((Ascii (false, true, false, false, true, true, true,
+    false)), EmptyString))))) :: ((obs_kvs (exp_sr c)) :: []))
+| MRr c ->
+  OL ((OS (String ((Ascii (false, true, false, false, true, false, true,
+    false)), (String ((Ascii (false, true, false, false, true, true, true,
+    false)), EmptyString))))) :: ((obs_kvs (exp_rr c)) :: []))
+| MApp c ->
+  OL ((OS (String ((Ascii (true, false, false, false, false, false, true,
+    false)), (String ((Ascii (false, false, false, false, true, true, true,
+    false)), (String ((Ascii (false, false, false, false, true, true, true,
+    false)), EmptyString))))))) :: ((obs_kvs (exp_app c)) :: []))
+| MBye c ->
+  OL ((OS (String ((Ascii (false, true, false, false, false, false, true,
+    false)), (String ((Ascii (true, false, false, true, true, true, true,
+    false)), (String ((Ascii (true, false, true, false, false, true, true,
+    false)), EmptyString))))))) :: ((obs_kvs (exp_bye c)) :: []))
+| MSdes c ->
+  OL ((OS (String ((Ascii (true, true, false, false, true, false, true,
+    false)), (String ((Ascii (false, false, true, false, false, true, true,
+    false)), (String ((Ascii (true, false, true, false, false, true, true,
+    false)), (String ((Ascii (true, true, false, false, true, true, true,
+    false)), EmptyString))))))))) :: ((obs_kvs (exp_sdes c)) :: []))
+| MFb c ->
+  OL ((OS
+    (match c.fb_c_kind with
+     | Transport ->
+       String ((Ascii (false, false, true, false, true, false, true, false)),
+         (String ((Ascii (false, true, true, false, false, true, true,
+         false)), (String ((Ascii (false, true, false, false, false, true,
+         true, false)), EmptyString)))))
+     | Payload ->
+       String ((Ascii (false, false, false, false, true, false, true,
+         false)), (String ((Ascii (false, true, true, false, false, true,
+         true, false)), (String ((Ascii (false, true, false, false, false,
+         true, true, false)), EmptyString))))))) :: ((obs_kvs (exp_fb c)) :: []))
+| MUnk c ->
+  OL ((OS (String ((Ascii (true, false, true, false, true, false, true,
+    false)), (String ((Ascii (false, true, true, true, false, true, true,
+    false)), (String ((Ascii (true, true, false, true, false, true, true,
+    false)), (String ((Ascii (false, true, true, true, false, true, true,
+    false)), (String ((Ascii (true, true, true, true, false, true, true,
+    false)), (String ((Ascii (true, true, true, false, true, true, true,
+    false)), (String ((Ascii (false, true, true, true, false, true, true,
+    false)),
+    EmptyString))))))))))))))) :: ((obs_kvs
+                                     (exp_raw c.unk_c_count c.unk_c_type
+                                       (add
+                                         (add (S (S (S (S O))))
+                                           (length c.unk_c_data))
+                                         (N.to_nat c.unk_c_padding)))) :: []))
+| MCustom c ->
+  OL ((OS (String ((Ascii (true, false, true, false, true, false, true,
+    false)), (String ((Ascii (false, true, true, true, false, true, true,
+    false)), (String ((Ascii (true, true, false, true, false, true, true,
+    false)), (String ((Ascii (false, true, true, true, false, true, true,
+    false)), (String ((Ascii (true, true, true, true, false, true, true,
+    false)), (String ((Ascii (true, true, true, false, true, true, true,
+    false)), (String ((Ascii (false, true, true, true, false, true, true,
+    false)),
+    EmptyString))))))))))))))) :: ((obs_kvs
+                                     (exp_raw c.cu_count c.cu_pt
+                                       (add
+                                         (add (S (S (S (S O))))
+                                           (length c.cu_payload))
+                                         (N.to_nat c.cu_padding)))) :: []))
+| MCompound _ ->
+  OS (String ((Ascii (true, true, false, false, false, true, true, false)),
+    (String ((Ascii (true, true, true, true, false, true, true, false)),
+    (String ((Ascii (true, false, true, true, false, true, true, false)),
+    (String ((Ascii (false, false, false, false, true, true, true, false)),
+    (String ((Ascii (true, true, true, true, false, true, true, false)),
+    (String ((Ascii (true, false, true, false, true, true, true, false)),
+    (String ((Ascii (false, true, true, true, false, true, true, false)),
+    (String ((Ascii (false, false, true, false, false, true, true, false)),
+    EmptyString))))))))))))))))
+
+(** val m_has_empty_fci : member -> bool **)
+
+let rec m_has_empty_fci = function
+| MFb c ->
+  (match c.fb_c_fci with
+   | FFir adds -> (match adds with
+                   | [] -> true
+                   | _ :: _ -> false)
+   | FSli es -> (match es with
+                 | [] -> true
+                 | _ :: _ -> false)
+   | _ -> false)
+| MCompound ms -> existsb m_has_empty_fci ms
+| _ -> false
+
+(** val m_oversize : member -> bool **)
+
+let rec m_oversize m = match m with
+| MCompound ms -> existsb m_oversize ms
+| _ ->
+  N.ltb (Npos (XO (XO (XO (XO (XO (XO (XO (XO (XO (XO (XO (XO (XO (XO (XO (XO
+    (XO (XO XH))))))))))))))))))) (N.of_nat (length (rfc_image m)))
+
+(** val m_classes : member -> obs **)
+
+let m_classes m =
+  OL
+    (app
+      (if m_oversize m
+       then (OS (String ((Ascii (true, true, true, true, false, true, true,
+              false)), (String ((Ascii (false, true, true, false, true, true,
+              true, false)), (String ((Ascii (true, false, true, false,
+              false, true, true, false)), (String ((Ascii (false, true,
+              false, false, true, true, true, false)), (String ((Ascii (true,
+              true, false, false, true, true, true, false)), (String ((Ascii
+              (true, false, false, true, false, true, true, false)), (String
+              ((Ascii (false, true, false, true, true, true, true, false)),
+              (String ((Ascii (true, false, true, false, false, true, true,
+              false)), EmptyString))))))))))))))))) :: []
+       else [])
+      (if m_has_empty_fci m
+       then (OS (String ((Ascii (true, false, true, false, false, true, true,
+              false)), (String ((Ascii (true, false, true, true, false, true,
+              true, false)), (String ((Ascii (false, false, false, false,
+              true, true, true, false)), (String ((Ascii (false, false, true,
+              false, true, true, true, false)), (String ((Ascii (true, false,
+              false, true, true, true, true, false)), (String ((Ascii (true,
+              false, true, true, false, true, false, false)), (String ((Ascii
+              (false, true, true, false, false, true, true, false)), (String
+              ((Ascii (true, false, false, true, false, true, true, false)),
+              (String ((Ascii (false, true, false, false, true, true, true,
+              false)), (String ((Ascii (true, false, true, true, false, true,
+              false, false)), (String ((Ascii (true, true, false, false,
+              true, true, true, false)), (String ((Ascii (false, false, true,
+              true, false, true, true, false)), (String ((Ascii (true, false,
+              false, true, false, true, true, false)),
+              EmptyString))))))))))))))))))))))))))) :: []
+       else []))
+
+(** val spec_build : member -> kv list **)
+
+let spec_build m =
+  ((String ((Ascii (true, true, false, false, true, true, true, false)),
+    (String ((Ascii (false, false, false, false, true, true, true, false)),
+    (String ((Ascii (true, false, true, false, false, true, true, false)),
+    (String ((Ascii (true, true, false, false, false, true, true, false)),
+    (String ((Ascii (false, true, true, true, false, true, false, false)),
+    (String ((Ascii (true, false, false, true, false, true, true, false)),
+    (String ((Ascii (true, false, true, true, false, true, true, false)),
+    (String ((Ascii (true, false, false, false, false, true, true, false)),
+    (String ((Ascii (true, true, true, false, false, true, true, false)),
+    (String ((Ascii (true, false, true, false, false, true, true, false)),
+    EmptyString)))))))))))))))))))), (OB (rfc_image m))) :: (((String ((Ascii
+    (true, true, false, false, true, true, true, false)), (String ((Ascii
+    (false, false, false, false, true, true, true, false)), (String ((Ascii
+    (true, false, true, false, false, true, true, false)), (String ((Ascii
+    (true, true, false, false, false, true, true, false)), (String ((Ascii
+    (false, true, true, true, false, true, false, false)), (String ((Ascii
+    (false, true, true, false, true, true, true, false)), (String ((Ascii
+    (true, false, false, true, false, true, true, false)), (String ((Ascii
+    (true, false, true, false, false, true, true, false)), (String ((Ascii
+    (true, true, true, false, true, true, true, false)),
+    EmptyString)))))))))))))))))), (okO (expected_packet m))) :: (((String
+    ((Ascii (true, true, false, false, true, true, true, false)), (String
+    ((Ascii (false, false, false, false, true, true, true, false)), (String
+    ((Ascii (true, false, true, false, false, true, true, false)), (String
+    ((Ascii (true, true, false, false, false, true, true, false)), (String
+    ((Ascii (false, true, true, true, false, true, false, false)), (String
+    ((Ascii (true, true, false, false, false, true, true, false)), (String
+    ((Ascii (false, false, true, true, false, true, true, false)), (String
+    ((Ascii (true, false, false, false, false, true, true, false)), (String
+    ((Ascii (true, true, false, false, true, true, true, false)), (String
+    ((Ascii (true, true, false, false, true, true, true, false)),
+    EmptyString)))))))))))))))))))), (m_classes m)) :: []))
+
+(** val entry_framing : entry -> bytes -> (nat * n) option **)
+
+let entry_framing e l =
+  match e with
+  | EPacket ->
+    (match nth_error l (S O) with
+     | Some n0 ->
+       (match n0 with
+        | N0 -> None
+        | Npos p ->
+          (match p with
+           | XI p0 ->
+             (match p0 with
+              | XI p1 ->
+                (match p1 with
+                 | XO p2 ->
+                   (match p2 with
+                    | XI p3 ->
+                      (match p3 with
+                       | XO p4 ->
+                         (match p4 with
+                          | XO p5 ->
+                            (match p5 with
+                             | XI p6 ->
+                               (match p6 with
+                                | XH ->
+                                  Some ((S (S (S (S O)))), (Npos (XI (XI (XO
+                                    (XI (XO (XO (XI XH)))))))))
+                                | _ -> None)
+                             | _ -> None)
+                          | _ -> None)
+                       | _ -> None)
+                    | _ -> None)
+                 | _ -> None)
+              | XO p1 ->
+                (match p1 with
+                 | XI p2 ->
+                   (match p2 with
+                    | XI p3 ->
+                      (match p3 with
+                       | XO p4 ->
+                         (match p4 with
+                          | XO p5 ->
+                            (match p5 with
+                             | XI p6 ->
+                               (match p6 with
+                                | XH ->
+                                  Some ((S (S (S (S (S (S (S (S (S (S (S (S
+                                    O)))))))))))), (Npos (XI (XO (XI (XI (XO
+                                    (XO (XI XH)))))))))
+                                | _ -> None)
+                             | _ -> None)
+                          | _ -> None)
+                       | _ -> None)
+                    | _ -> None)
+                 | XO p2 ->
+                   (match p2 with
+                    | XI p3 ->
+                      (match p3 with
+                       | XO p4 ->
+                         (match p4 with
+                          | XO p5 ->
+                            (match p5 with
+                             | XI p6 ->
+                               (match p6 with
+                                | XH ->
+                                  Some ((S (S (S (S (S (S (S (S O)))))))),
+                                    (Npos (XI (XO (XO (XI (XO (XO (XI
+                                    XH)))))))))
+                                | _ -> None)
+                             | _ -> None)
+                          | _ -> None)
+                       | _ -> None)
+                    | _ -> None)
+                 | XH -> None)
+              | XH -> None)
+           | XO p0 ->
+             (match p0 with
+              | XI p1 ->
+                (match p1 with
+                 | XI p2 ->
+                   (match p2 with
+                    | XI p3 ->
+                      (match p3 with
+                       | XO p4 ->
+                         (match p4 with
+                          | XO p5 ->
+                            (match p5 with
+                             | XI p6 ->
+                               (match p6 with
+                                | XH ->
+                                  Some ((S (S (S (S (S (S (S (S (S (S (S (S
+                                    O)))))))))))), (Npos (XO (XI (XI (XI (XO
+                                    (XO (XI XH)))))))))
+                                | _ -> None)
+                             | _ -> None)
+                          | _ -> None)
+                       | _ -> None)
+                    | _ -> None)
+                 | XO p2 ->
+                   (match p2 with
+                    | XI p3 ->
+                      (match p3 with
+                       | XO p4 ->
+                         (match p4 with
+                          | XO p5 ->
+                            (match p5 with
+                             | XI p6 ->
+                               (match p6 with
+                                | XH ->
+                                  Some ((S (S (S (S O)))), (Npos (XO (XI (XO
+                                    (XI (XO (XO (XI XH)))))))))
+                                | _ -> None)
+                             | _ -> None)
+                          | _ -> None)
+                       | _ -> None)
+                    | _ -> None)
+                 | XH -> None)
+              | XO p1 ->
+                (match p1 with
+                 | XI p2 ->
+                   (match p2 with
+                    | XI p3 ->
+                      (match p3 with
+                       | XO p4 ->
+                         (match p4 with
+                          | XO p5 ->
+                            (match p5 with
+                             | XI p6 ->
+                               (match p6 with
+                                | XH ->
+                                  Some ((S (S (S (S (S (S (S (S (S (S (S (S
+                                    O)))))))))))), (Npos (XO (XO (XI (XI (XO
+                                    (XO (XI XH)))))))))
+                                | _ -> None)
+                             | _ -> None)
+                          | _ -> None)
+                       | _ -> None)
+                    | _ -> None)
+                 | XO p2 ->
+                   (match p2 with
+                    | XI p3 ->
+                      (match p3 with
+                       | XO p4 ->
+                         (match p4 with
+                          | XO p5 ->
+                            (match p5 with
+                             | XI p6 ->
+                               (match p6 with
+                                | XH ->
+                                  Some ((S (S (S (S (S (S (S (S (S (S (S (S
+                                    (S (S (S (S (S (S (S (S (S (S (S (S (S (S
+                                    (S (S O)))))))))))))))))))))))))))),
+                                    (Npos (XO (XO (XO (XI (XO (XO (XI
+                                    XH)))))))))
+                                | _ -> None)
+                             | _ -> None)
+                          | _ -> None)
+                       | _ -> None)
+                    | _ -> None)
+                 | XH -> None)
+              | XH -> None)
+           | XH -> None))
+     | None -> None)
+  | ETyped v ->
+    (match v with
+     | VApp ->
+       Some ((S (S (S (S (S (S (S (S (S (S (S (S O)))))))))))), (Npos (XO (XO
+         (XI (XI (XO (XO (XI XH)))))))))
+     | VBye ->
+       Some ((S (S (S (S O)))), (Npos (XI (XI (XO (XI (XO (XO (XI XH)))))))))
+     | VRr ->
+       Some ((S (S (S (S (S (S (S (S O)))))))), (Npos (XI (XO (XO (XI (XO (XO
+         (XI XH)))))))))
+     | VSdes ->
+       Some ((S (S (S (S O)))), (Npos (XO (XI (XO (XI (XO (XO (XI XH)))))))))
+     | VSr ->
+       Some ((S (S (S (S (S (S (S (S (S (S (S (S (S (S (S (S (S (S (S (S (S
+         (S (S (S (S (S (S (S O)))))))))))))))))))))))))))), (Npos (XO (XO
+         (XO (XI (XO (XO (XI XH)))))))))
+     | VTfb ->
+       Some ((S (S (S (S (S (S (S (S (S (S (S (S O)))))))))))), (Npos (XI (XO
+         (XI (XI (XO (XO (XI XH)))))))))
+     | VPfb ->
+       Some ((S (S (S (S (S (S (S (S (S (S (S (S O)))))))))))), (Npos (XO (XI
+         (XI (XI (XO (XO (XI XH)))))))))
+     | VUnknown -> None)
+  | ECustom (pt, min) -> Some (min, pt)
+  | _ -> None
+
+(** val obs_bool : bool -> obs **)
+
+let obs_bool = function
+| true ->
+  OS (String ((Ascii (false, false, true, false, true, true, true, false)),
+    (String ((Ascii (false, true, false, false, true, true, true, false)),
+    (String ((Ascii (true, false, true, false, true, true, true, false)),
+    (String ((Ascii (true, false, true, false, false, true, true, false)),
+    EmptyString))))))))
+| false ->
+  OS (String ((Ascii (false, true, true, false, false, true, true, false)),
+    (String ((Ascii (true, false, false, false, false, true, true, false)),
+    (String ((Ascii (false, false, true, true, false, true, true, false)),
+    (String ((Ascii (true, true, false, false, true, true, true, false)),
+    (String ((Ascii (true, false, true, false, false, true, true, false)),
+    EmptyString))))))))))
+
+(** val spec_parse : entry -> bytes -> kv list **)
+
+let spec_parse e l =
+  app
+    (match entry_framing e l with
+     | Some p ->
+       let (min, pt) = p in
+       ((String ((Ascii (true, true, false, false, true, true, true, false)),
+       (String ((Ascii (false, false, false, false, true, true, true,
+       false)), (String ((Ascii (true, false, true, false, false, true, true,
+       false)), (String ((Ascii (true, true, false, false, false, true, true,
+       false)), (String ((Ascii (false, true, true, true, false, true, false,
+       false)), (String ((Ascii (false, true, true, false, false, true, true,
+       false)), (String ((Ascii (false, true, false, false, true, true, true,
+       false)), (String ((Ascii (true, false, false, false, false, true,
+       true, false)), (String ((Ascii (true, false, true, true, false, true,
+       true, false)), (String ((Ascii (true, false, true, false, false, true,
+       true, false)), (String ((Ascii (false, false, true, false, false,
+       true, true, false)), EmptyString)))))))))))))))))))))),
+       (obs_bool (well_framed min pt l))) :: []
+     | None -> []) (((String ((Ascii (true, true, false, false, true, true,
+    true, false)), (String ((Ascii (false, false, false, false, true, true,
+    true, false)), (String ((Ascii (true, false, true, false, false, true,
+    true, false)), (String ((Ascii (true, true, false, false, false, true,
+    true, false)), (String ((Ascii (false, true, true, true, false, true,
+    false, false)), (String ((Ascii (false, true, false, false, true, true,
+    true, false)), (String ((Ascii (true, false, false, false, false, true,
+    true, false)), (String ((Ascii (true, true, true, false, true, true,
+    true, false)), (String ((Ascii (true, true, true, true, true, false,
+    true, false)), (String ((Ascii (false, true, true, false, false, true,
+    true, false)), (String ((Ascii (false, true, false, false, true, true,
+    true, false)), (String ((Ascii (true, false, false, false, false, true,
+    true, false)), (String ((Ascii (true, false, true, true, false, true,
+    true, false)), (String ((Ascii (true, false, true, false, false, true,
+    true, false)), (String ((Ascii (false, false, true, false, false, true,
+    true, false)), EmptyString)))))))))))))))))))))))))))))),
+    (obs_bool (raw_framed l))) :: [])
